@@ -274,6 +274,8 @@ func runC03(p *core.Prog, r *core.Report) {
 			r.Check(src[junction], "C03.R5", "BlockUndoSignal.LastValidCursor", "the undo signal's cursor is built from the junction block", "does not derive from the junction parameter", p.Pos(s.Pos()))
 		}
 	})
+	r.Guard("C03.R5", "pending-undo", "pending undo sent once", func() { checkPendingUndoSentOnce(p, r, "C03.R5") })
+	r.Guard("C03.R5", "gate-and-undo", "undo below the start block", func() { checkGateAndUndo(p, r, "C03.R5") })
 	r.Guard("C03.R5", "insideReorgUpTo/writers", "writers of insideReorgUpTo", func() {
 		f := p.Field(pkgPipe, "Pipeline", "insideReorgUpTo")
 		allowed := map[string]string{
